@@ -166,8 +166,11 @@ Section EP.
     end.
   (* sorted(self.priors): distinct priors in id order *)
   Definition sorted_vars (fs : list (list var)) : list var := fold_right insert_sorted [] (concat fs).
+  (* model factors, then one prior factor per distinct prior.  The harness indexes prior factors by
+     descending id; their position inside the real graph (a reversed set iteration) only fixes the
+     default visiting order, which every case supplies explicitly as [order] *)
   Definition graph_factors (include : bool) (fs : list (list var)) : list (list var) :=
-    map (nodup Nat.eq_dec) fs ++ (if include then map (fun v => [v]) (sorted_vars fs) else []).
+    map (nodup Nat.eq_dec) fs ++ (if include then map (fun v => [v]) (rev (sorted_vars fs)) else []).
   Definition prior_of (priors : mf) (v : var) (dflt : G) : G :=
     match get v priors with Some g => g | None => dflt end.
   (* message_dict: prior.message ** (1 / (count - 1)) if count > 1 else prior.message *)
@@ -309,9 +312,11 @@ Definition in_state (l : list (list (var * (Q * Q)))) : nstate := map in_mf l.
 
 (* ---------- comparison with observed binary64 natural parameters ---------- *)
 Definition obs_mf := list (var * (Q * Q)).
-Definition qabs_sum (a : N2) : Q := Qabs (this (fst a)) + Qabs (this (snd a)).
-Definition mf_mag (m : nmf) : Q := fold_right (fun vm acc => qabs_sum (snd vm) + acc) 0 m.
-Definition st_mag (st : nstate) : Q := fold_right (fun m acc => mf_mag m + acc) 0 st.
+(* magnitudes are integer upper bounds (cheap): ceil|e1| + ceil|e2| per message *)
+Definition qceil_abs (q : Q) : Z := (Z.abs (Qnum q) / Zpos (Qden q) + 1)%Z.
+Definition qabs_sum (a : N2) : Z := (qceil_abs (this (fst a)) + qceil_abs (this (snd a)))%Z.
+Definition mf_mag (m : nmf) : Z := fold_right (fun vm acc => (qabs_sum (snd vm) + acc)%Z) 0%Z m.
+Definition st_mag (st : nstate) : Z := fold_right (fun m acc => (mf_mag m + acc)%Z) 0%Z st.
 (* labelled tolerance: 2^-36 of the magnitude of everything that entered the computation *)
 Definition eps : Q := 1 # 68719476736.
 Definition close (tol : Q) (a : N2) (b : Q * Q) : bool :=
@@ -331,7 +336,7 @@ Fixpoint st_close (tol : Q) (st : nstate) (o : list obs_mf) : bool :=
   | m :: st', om :: o' => mf_close tol m om && st_close tol st' o'
   | _, _ => false
   end.
-Definition tol_of (mag : Q) : Q := eps * (1 + mag).
+Definition tol_of (mag : Z) : Q := eps * inject_Z (1 + mag).
 
 (* ---------- correspondence cases ---------- *)
 Inductive rdelta :=
@@ -371,7 +376,7 @@ Definition raw_step (acc : nstate * nstate * bool) (s : rstep) : nstate * nstate
   let last := own N2 i src in
   let dl := delta_of (r_delta s) st in
   let st' := n_project i dl cavd last new st in
-  let tol := tol_of (st_mag st + st_mag src + mf_mag new + st_mag st') in
+  let tol := tol_of (st_mag st + st_mag src + mf_mag new + st_mag st')%Z in
   let good :=
     mf_close tol cavd (r_obs_cavity s)
     && mf_close tol (n_model_dist i src) (r_obs_model s)
@@ -412,17 +417,17 @@ Fixpoint forall2b {A B} (p : A -> B -> bool) (a : list A) (b : list B) : bool :=
   | _, _ => false
   end.
 
-Fixpoint log_close (log : list (nat * hentry N2)) (o : list obs_entry) (mag0 : Q) : bool :=
+Fixpoint log_close (log : list (nat * hentry N2)) (o : list obs_entry) (mag0 : Z) : bool :=
   match log, o with
   | [], [] => true
   | (i, e) :: log', oe :: o' =>
-      let tol := tol_of (mag0 + st_mag (h_state e)) in
+      let tol := tol_of (mag0 + st_mag (h_state e))%Z in
       Nat.eqb i (o_factor oe)
       && Bool.eqb (h_success e) (o_success oe) && Bool.eqb (h_updated e) (o_updated oe)
       && opt_eqb Z.eqb (h_token e) (o_token oe)
       && mf_close tol (own N2 i (h_state e)) (o_msg oe)
       && mf_close tol (n_global (h_state e)) (o_global oe)
-      && log_close log' o' (mag0 + st_mag (h_state e))
+      && log_close log' o' (mag0 + st_mag (h_state e))%Z
   | _, _ => false
   end.
 
@@ -433,8 +438,8 @@ Definition access_ok (h : list (hentry N2)) (a : obs_access) : bool :=
   && opt_eqb Nat.eqb (previous_update N2 h) (a_previous_update a)
   && opt_eqb (opt_eqb Z.eqb) (latest_result N2 code_latest_result_first h) (a_latest_result a).
 
-Definition scripts_mag (scripts : list (list ofit)) : Q :=
-  fold_right (fun l acc => fold_right (fun o acc' => match o with OFit _ _ n => mf_mag n + acc' | ORaise => acc' end) acc l) 0 scripts.
+Definition scripts_mag (scripts : list (list ofit)) : Z :=
+  fold_right (fun l acc => fold_right (fun o acc' => match o with OFit _ _ n => (mf_mag n + acc')%Z | ORaise => acc' end) acc l) 0%Z scripts.
 
 Inductive case :=
 (* an arbitrary factor graph with an arbitrary mean-field state, then a sequence of updates *)
@@ -460,19 +465,19 @@ Definition check_case (c : case) : bool :=
       let '(stn, _, ok) := fold_left raw_step steps (st0, st0, true) in
       st_close tol0 st0 o0 && mf_close tol0 (n_global st0) g0 && ok
       && st_close (tol_of (st_mag st0 + st_mag stn
-                           + fold_right (fun s acc => mf_mag (in_mf (r_new s)) + acc) 0 steps)) stn ofin
+                           + fold_right (fun s acc => mf_mag (in_mf (r_new s)) + acc) 0 steps)%Z) stn ofin
   | CDecl priors fs include o0 c0 rd order max_steps stop scripts olog ofin oacc groups ogroups =>
       let pri := in_mf priors in
       let st0 := init_state N2 n_scale code_counts_occurrences include fs pri n_zero in
-      let tol0 := tol_of (st_mag st0 + mf_mag pri) in
+      let tol0 := tol_of (st_mag st0 + mf_mag pri)%Z in
       let sc := map (map in_outcome) scripts in
       let dl := delta_of rd st0 in
       let '(stn, log) := run N2 n_add n_opp n_scale n_valid max_steps dl sc stop order st0 [] in
-      let mag := st_mag st0 + mf_mag pri + scripts_mag sc in
+      let mag := (st_mag st0 + mf_mag pri + scripts_mag sc)%Z in
       st_close tol0 st0 o0
       && st_close tol0 (map (fun i => n_cavity i st0) (seq 0 (length st0))) c0
       && log_close log olog mag
-      && st_close (tol_of (mag + st_mag stn)) stn ofin
+      && st_close (tol_of (mag + st_mag stn)%Z) stn ofin
       && forall2b (fun i a => access_ok (history_of N2 i log) a) (seq 0 (length st0)) oacc
       && list_eqb (opt_eqb (list_eqb (opt_eqb Z.eqb)))
            (map (fun g => latest_results N2 code_latest_result_first g log) groups) ogroups
